@@ -4,6 +4,7 @@ import OpusProofs.SilkStereoMain
 import OpusProofs.SilkStereoAgree
 import OpusProofs.SilkStereoSym
 import OpusProofs.SilkStereoLoops
+import OpusProofs.SilkStereoEnc
 /-
   OpusProps.C18Stereo — property C18 (SILK side information dequantises to stable, in-range parameters), slice Stereo:
   the mid/side predictor side information (silk/stereo_quant_pred.c, stereo_encode_pred.c, stereo_decode_pred.c).
@@ -147,6 +148,62 @@ theorem mid_only_flag_binary (c : RangeCoder.Dec) : (SilkSyms.stereoDecodeMidOnl
   OpusProofs.SilkStereoSym.mid_only_le c
 
 example : (SilkSyms.stereoDecodeMidOnly (RangeCoder.decInit [0xff, 0xff, 0, 0] 4)).1 = 1 := by decide +kernel
+
+/-! ## The encoder side that produces the pair (OpusModel/SilkStereoEnc.lean) -/
+
+/-- ENCODER PREDICTORS ARE IN THE DOMAIN.  For every input — any results of the sample loops (`nrgx`, `nrgy`, `corr`,
+    scales: any int16 signals and more), any smoothing state (`mid_side_amp_Q0`, `smth_width_Q14`, `width_prev_Q14`: no
+    invariant needed), any bitrate, rate, speech activity, `toMono` — `silk_stereo_find_predictor` returns a value in
+    `[-2^14, 2^14]` (its final `silk_LIMIT`), and the pair `silk_stereo_LR_to_MS` hands to `silk_stereo_quant_pred` in
+    whichever of its five branches lies in `[-2^15, 2^15]` (width scaling by an arbitrary `opus_int16`
+    `smth_width_Q14`), hence in `Dom`; with the smoothed width in its nominal range `[0, 2^14]` the scaling keeps
+    `[-2^14, 2^14]`. -/
+theorem encoder_pred_in_domain (x : LrIn) (lp hp : FindIn) :
+    (∀ a b c d e f g h : Int, -16384 ≤ (findPredictor a b c d e f g h).pred ∧ (findPredictor a b c d e f g h).pred ≤ 16384) ∧
+    (-32768 ≤ (lrToMs x lp hp).q0 ∧ (lrToMs x lp hp).q0 ≤ 32768) ∧
+    (-32768 ≤ (lrToMs x lp hp).q1 ∧ (lrToMs x lp hp).q1 ≤ 32768) ∧
+    Dom (lrToMs x lp hp).q0 ∧ Dom (lrToMs x lp hp).q1 ∧
+    (∀ smth p : Int, 0 ≤ smth → smth ≤ 16384 → -16384 ≤ p → p ≤ 16384 →
+      -16384 ≤ scalePred smth p ∧ scalePred smth p ≤ 16384) := by
+  have h := OpusProofs.SilkStereoEnc.lrToMs_bounds x lp hp
+  refine ⟨fun a b c d e f g h => OpusProofs.SilkStereoEnc.findPredictor_pred a b c d e f g h, h.1, h.2, ?_, ?_,
+    fun smth p h1 h2 h3 h4 => OpusProofs.SilkStereoEnc.scalePred_bounds_nominal h1 h2 h3 h4⟩
+  · unfold Dom; omega
+  · unfold Dom; omega
+
+example : (findPredictor 1000000 0 1000000 0 (-3000000) 0 0 655).pred = -16384 ∧
+    (lrPreds { smth := 8000, widthPrev := 8000, totalRate := 20000, fsKHz := 16, is10ms := false, act := 200, toMono := false }
+      (-16384) 3000 5000 9000).q0 = -8026 := by decide +kernel
+
+/-- COMPOSED: EVERY call of `silk_stereo_quant_pred` the encoder makes (any signals, state, rate, whatever `ix` holds)
+    terminates without undefined behaviour, writes only symbols inside their iCDF tables (no `celt_assert`), and the decoder
+    rebuilds exactly the pair the encoder keeps. -/
+theorem encoder_stereo_symbols_valid (x : LrIn) (lp hp : FindIn) (ixIn : List Int) :
+    ∃ out syms, quantPred (lrToMs x lp hp).q0 (lrToMs x lp hp).q1 ixIn = some out ∧
+      encodeSyms out.ix = .ok syms ∧ syms.length = 5 ∧ (∀ s ∈ syms, 0 ≤ s.1 ∧ s.1 < (s.2 : Int)) ∧
+      decodeOfIx out.ix = .ok (out.pred0, out.pred1) := by
+  have hd := encoder_pred_in_domain x lp hp
+  obtain ⟨out, a0, b0, c0, a1, b1, c1, hq, -, h1, h2, h3, h4, h5, h6, h7, hs, -⟩ :=
+    quant_indices_in_range _ _ ixIn hd.2.2.2.1 hd.2.2.2.2.1
+  obtain ⟨out', hq', hdec⟩ := enc_dec_agree _ _ ixIn hd.2.2.2.1 hd.2.2.2.2.1
+  have e : out' = out := by rw [hq] at hq'; exact (Option.some.inj hq').symm
+  subst e
+  have hss : (subSteps : Int) = 5 := by decide +kernel
+  refine ⟨out', _, hq, hs, rfl, ?_, hdec⟩
+  intro s hs'
+  simp only [List.mem_cons, List.mem_nil_iff, or_false] at hs'
+  rcases hs' with rfl | rfl | rfl | rfl | rfl <;> (constructor <;> simp only [] <;> omega)
+
+/-- `silk_stereo_encode_mid_only` -> `ec_enc_done` -> `silk_stereo_decode_mid_only` (the symbol layer's reader) on a fresh
+    range coder gives the flag back, for both flag values. -/
+theorem mid_only_round_trip : ∀ flag : Nat, flag ≤ 1 →
+    (SilkSyms.stereoDecodeMidOnly (RangeCoder.decInit (RangeCoder.encDone (RangeCoder.encIcdf
+      (RangeCoder.encInit [0, 0, 0, 0] 4) (encodeMidOnlySym flag).1.toNat (encodeMidOnlySym flag).2 8)).buf 4)).1 = flag := by
+  intro flag h
+  have : flag = 0 ∨ flag = 1 := by omega
+  rcases this with rfl | rfl <;> decide +kernel
+
+example : (encodeMidOnlySym 1).2 = [64, 0] := by decide +kernel
 
 /-- TRANSCRIPTION.  The search written statement for statement with its two nested `for` loops and the `goto done`
     (OpusModel/SilkStereoLoops.lean) is the scan over the visiting order that `quantOne` — hence every theorem above — uses. -/
